@@ -265,8 +265,7 @@ def check_c15(out, tier):
     groups = {}
     for run in camp["runs"]:
         steps += run["checked"]
-        base = run["fixture"].split("_")[0]
-        groups.setdefault(base, []).append(run)
+        groups.setdefault(run["group"], []).append(run)
         for te in run["tlc_errors"]:
             out.machinery.append("TLC could not walk %s: %s" % (te["file"], te["msg"][-300:]))
         for c in run["crashes"]:
@@ -285,7 +284,7 @@ def check_c15(out, tier):
     for base, runs in groups.items():
         hashes = {r["behaviour_hash"] for r in runs}
         if len(hashes) > 1:
-            out.violations.append(dict(replay="fixtures/%s.json" % base, what="the same program behaves differently across builds: " +
+            out.violations.append(dict(replay="fixtures/%s.json" % base.split("/")[0], what="the same program behaves differently across builds: " +
                                        ", ".join("%s=%s" % (r["fixture"], r["behaviour_hash"][:8]) for r in runs)))
     out.coverage.update(dict(
         evaluations=steps, distinct_nontrivial=len(camp["runs"]),
@@ -293,6 +292,7 @@ def check_c15(out, tier):
              "headers} x {g++ -std=c++14, clang++ -std=c++11}; each trace validated by TLC against the one specification and the callback/configuration "
              "sequences of all builds of a fixture compared with each other",
         samples=[dict(build=r["fixture"], features=r["features"], compiler_variant=r["variant"], steps=r["checked"]) for r in camp["runs"][:4]],
-        builds=[dict(build=r["fixture"], features=r["features"], variant=r["variant"]) for r in camp["runs"]]))
+        builds=[dict(build=r["fixture"], features=r["features"], variant=r["variant"], payload=r["payload"], substitution_limit=r["limit"],
+                     task_capacity=r["taskcap"]) for r in camp["runs"]]))
     out.assumptions += ["the enumerated feature sets stand for all 2^7 combinations", "TLC and the executor as for the behavioural properties"]
     return out.finish("exploration")
